@@ -135,11 +135,11 @@ def charge_table(g, st, ms):
 
 def run(ctx):
     rng = ctx.rng
-    nprog, (dmin, dmax) = (500, (3, 9)) if ctx.quick else (8000, (3, 14))
+    nprog, (dmin, dmax) = (1800, (3, 9)) if ctx.quick else (12000, (3, 14))
     ctx.rule = ("random type-directed programs as in C01 plus svd/qr/fuse/unfuse; after EVERY step: structure == Lean model (whose `wf` flag is proved "
                 "sound for WF), is_consistent(), independent selection-rule / ordering / shape / size / fusion-meta oracle, forbidden dense elements zero, "
                 "total-charge table; non-trivial = some result with >=2 blocks; distinct by (sym, policy, op sequence)")
-    budget = 75 if ctx.quick else 800
+    budget = 50 if ctx.quick else 800
     for it in range(nprog):
         if ctx.elapsed() > budget:
             ctx.count("stopped-by-time-budget")
